@@ -22,8 +22,12 @@ impl Document for Mapping {
     }
 }
 
+// slice::join(";") (Join trait, outside Verus): the text is a function of the joined messages (joined: uninterpreted)
+pub uninterp spec fn joined(msgs: Seq<String>) -> Seq<char>;
 #[verifier::external_body]
-pub fn join_errors(errors: &Vec<String>) -> String { errors.join(";") }
+pub fn join_errors(errors: &Vec<String>) -> (r: String)
+    ensures r@ == joined(errors@),
+{ errors.join(";") }
 
 pub uninterp spec fn mapping_len(m: &Mapping) -> nat;
 pub assume_specification[ Mapping::is_empty ](m: &Mapping) -> (r: bool) ensures r == (mapping_len(m) == 0);
